@@ -124,6 +124,13 @@ func (c *Code) Global(index int) *Symbol {
 	return c.symbols.Root().Symbol(uint16(index))
 }
 
+// GlobalSymbol returns the symbol that the given name is bound to at the top
+// level of the program. Variables declared in nested top-level blocks also
+// occupy global slots, possibly under the same name; they are not returned.
+func (c *Code) GlobalSymbol(name string) (*Symbol, bool) {
+	return c.symbols.Root().Get(name)
+}
+
 func (c *Code) GlobalNames() []string {
 	root := c.symbols.Root()
 	count := root.Count()
